@@ -22,8 +22,21 @@ import traceback
 CTX = mp.get_context("fork")
 
 
-def _worker(widx, work, init, taskq, resq, cur, mem_limit):
+def _die_with_parent(parent_pid):
+    """Workers must not outlive the check: if the parent is killed (a caller's timeout), the kernel kills the worker."""
+    try:
+        import ctypes
+        ctypes.CDLL(None, use_errno=True).prctl(1, int(signal.SIGKILL), 0, 0, 0)   # PR_SET_PDEATHSIG
+    except Exception:
+        pass
+    if os.getppid() != parent_pid:   # the parent died before prctl took effect
+        os._exit(1)
+
+
+def _worker(widx, work, init, taskq, resq, cur, mem_limit, parent_pid=None):
     signal.signal(signal.SIGINT, signal.SIG_IGN)
+    if parent_pid is not None:
+        _die_with_parent(parent_pid)
     if mem_limit:
         try:
             resource.setrlimit(resource.RLIMIT_AS, (mem_limit, mem_limit))
@@ -123,7 +136,7 @@ def run_chunks(work, chunks, nproc=None, case_timeout=20.0, mem_limit=6 << 30,
     def spawn(widx):
         cur[widx * 3] = -1
         p = CTX.Process(target=_worker,
-                        args=(widx, work, init, taskq, resq, cur, mem_limit),
+                        args=(widx, work, init, taskq, resq, cur, mem_limit, os.getpid()),
                         daemon=True)
         p.start()
         procs[widx] = p
